@@ -19,6 +19,25 @@ func lowerFirst(s string) string {
 	return strings.ToLower(s[0:1]) + s[1:]
 }
 
+// dartIdentifier converts a JSON field name to a valid Dart identifier,
+// following the Dart convention
+func dartIdentifier(jsonName string) string {
+	var out []rune
+	for i, r := range jsonName {
+		isLetter := r == '_' || ('a' <= r && r <= 'z') || ('A' <= r && r <= 'Z')
+		isDigit := '0' <= r && r <= '9'
+		if isLetter || (isDigit && i != 0) {
+			out = append(out, r)
+		} else {
+			out = append(out, '_')
+		}
+	}
+	if len(out) == 0 {
+		return "_"
+	}
+	return lowerFirst(string(out))
+}
+
 // typeName returns the Dart string used to refer to this type
 // (not to be confused with the type declaration)
 func typeName(typ an.Type) string {
@@ -212,7 +231,7 @@ func (buf buffer) codeForStruct(typ *an.Struct) (gen.Declaration, []string) {
 			tn = typeName(field.Type)
 		}
 
-		dartFieldName := lowerFirst(field.JSONName()) // convert to dart convention
+		dartFieldName := dartIdentifier(field.JSONName()) // convert to dart convention
 
 		fields = append(fields, fmt.Sprintf("final %s %s;", tn, dartFieldName))
 		initFields = append(initFields, fmt.Sprintf("this.%s", dartFieldName))
